@@ -41,6 +41,7 @@ def ens_groups(pool):
     return list(g.values())
 
 
+SPLIT = ['halves']
 SUBLISTS = [False]          # switched on per matrix: one entry (any position) keeps the full lists, so that the union is the pool
 
 
@@ -57,7 +58,11 @@ def entry_obs(rng, pool, v, rel=0.03):
         idls = []
         for n in names:
             full = list(pool[n])
-            if SUBLISTS[0] and len(full) >= 10 and rng.random() < 0.3:
+            if SUBLISTS[0] in ('A', 'B') and len(full) >= 10 and len(full) % 2 == 0:
+                # equally many, but different configurations: the two halves / every other configuration
+                halves = (full[:len(full) // 2], full[len(full) // 2:]) if SPLIT[0] == 'halves' else (full[0::2], full[1::2])
+                idls.append([int(c) for c in halves[0 if SUBLISTS[0] == 'A' else 1]])
+            elif SUBLISTS[0] is True and len(full) >= 10 and rng.random() < 0.3:
                 kind = str(rng.choice(['first', 'second', 'odd', 'even', 'random']))
                 sub = full[:len(full) // 2] if kind == 'first' else full[len(full) // 2:] if kind == 'second' else full[1::2] if kind == 'odd' else full[0::2] \
                     if kind == 'even' else sorted(rng.choice(full, size=max(5, len(full) - 3), replace=False).tolist())
@@ -136,8 +141,15 @@ def values_matrix(rng, m, n=None, kind='general'):
 def obs_matrix(rng, pool, vals, plain_frac=0.0, symmetric=False, common_lists=False):
     m, n = vals.shape
     M = np.empty((m, n), dtype=object)
+    # (with whole replicas missing AND different configuration sets the result of a step-by-step product depends on the order of the
+    #  steps - the side condition of C01 - so the two kinds of partial knowledge are not combined in one case)
+    multi_rep = any(len(g) > 1 for g in ens_groups(pool))
+    common_lists = common_lists or multi_rep
     sub = bool(rng.random() < 0.35) and m * n > 1 and not common_lists
     keep_full = (int(rng.integers(0, m)), int(rng.integers(0, n)))
+    equal_split = bool(rng.random() < 0.25) and m * n > 1 and not common_lists and not symmetric and plain_frac == 0.0
+    SPLIT[0] = str(rng.choice(['halves', 'alternate']))
+    count = 0
     for i in range(m):
         for j in range(n):
             if symmetric and j < i:
@@ -145,7 +157,8 @@ def obs_matrix(rng, pool, vals, plain_frac=0.0, symmetric=False, common_lists=Fa
             elif rng.random() < plain_frac and (i, j) != keep_full:
                 M[i, j] = float(vals[i, j])
             else:
-                SUBLISTS[0] = sub and (i, j) != keep_full
+                SUBLISTS[0] = ('A' if count % 2 == 0 else 'B') if equal_split else (sub and (i, j) != keep_full)
+                count += 1
                 M[i, j] = entry_obs(rng, pool, float(vals[i, j]))
                 SUBLISTS[0] = False
     return M
